@@ -76,7 +76,11 @@ def date(  # noqa: PLR0912 PLR0911
         if dat in ("now", "today"):
             dat = datetime.datetime.now()
         elif dat.isdigit():
-            dat = datetime.datetime.fromtimestamp(int(dat))
+            try:
+                dat = datetime.datetime.fromtimestamp(int(dat))
+            except (OverflowError, OSError, ValueError):
+                # Out of range for a timestamp. Input is returned unchanged.
+                return str(dat)
         else:
             try:
                 dat = parser.parse(dat)
@@ -86,7 +90,7 @@ def date(  # noqa: PLR0912 PLR0911
     elif isinstance(dat, int):
         try:
             dat = datetime.datetime.fromtimestamp(dat)
-        except (OverflowError, OSError):
+        except (OverflowError, OSError, ValueError):
             # Testing on Windows shows that it can't handle some
             # negative integers.
             return str(dat)
